@@ -242,20 +242,46 @@ func (cl *c10Client) cmd(line string) (int, string, error) {
 	return cl.reply()
 }
 
-// c10DotStuff prepares a message for DATA: a dot is doubled at the start and after every CRLF;
-// the message is terminated by CRLF if it is not, then by ".CRLF".
+// c10DotStuff prepares a message for DATA the way the server's own line state machine reads it
+// (go-smtp dataReader: a line ends at CR LF, but in "CR CR LF" the LF does NOT end a line): a dot at
+// the beginning of a line is doubled, the message is completed to a full line, then ".CRLF".
 func c10DotStuff(msg []byte) []byte {
+	const (
+		begin = iota
+		data
+		cr
+	)
 	out := make([]byte, 0, len(msg)+16)
-	bol := true
-	for i, c := range msg {
-		if bol && c == '.' {
-			out = append(out, '.')
+	st := begin
+	for _, c := range msg {
+		switch st {
+		case begin:
+			if c == '.' {
+				out = append(out, '.')
+			}
+			if c == '\r' {
+				st = cr
+			} else {
+				st = data
+			}
+		case cr:
+			if c == '\n' {
+				st = begin
+			} else {
+				st = data
+			}
+		case data:
+			if c == '\r' {
+				st = cr
+			}
 		}
 		out = append(out, c)
-		bol = c == '\n' && i > 0 && msg[i-1] == '\r'
 	}
-	if !bytes.HasSuffix(msg, []byte("\r\n")) {
+	switch st {
+	case data:
 		out = append(out, '\r', '\n')
+	case cr:
+		out = append(out, '\n')
 	}
 	return append(out, '.', '\r', '\n')
 }
